@@ -177,6 +177,15 @@ theorem reissue_sets_cookie (cfg : Cfg) (clock : Q) (s0 : Sess) (pre post : List
     right
     exact ih (clock + dq') (by simpa [endClock] using hlate) (Spec.apply op' d)
 
+/-- `pop` (with or without a default, whatever the default and whether or not the key is present — in particular when
+the stored value IS the default) marks the session dirty and removes the key. -/
+theorem pop_marks_dirty (cfg : Cfg) (now : Q) (k : String) (dflt : Option JV) (s : Sess) :
+    (runOp cfg now (.pop k dflt) s).1.dirty = true ∧ (runOp cfg now (.pop k dflt) s).1.data = ddel s.data k := by
+  obtain ⟨h1, _, h3⟩ := runOp_char cfg now (.pop k dflt) s
+  refine ⟨?_, by simpa [Spec.apply] using h1⟩
+  have := congrArg Book.dirty h3
+  simpa [Sess.book, Book.after, Spec.modifies, Spec.wrapOf, Spec.Wrap.isChanged] using this
+
 /-- `changed()` registers exactly one response callback however often the session is marked -/
 theorem one_callback (cfg : Cfg) (clock : Q) (s0 : Sess) (ops : List (Nat × Op)) (h0 : s0.pristine) :
     (runOps cfg clock s0 ops).2.1.callbacks = if (runOps cfg clock s0 ops).2.1.dirty then 1 else 0 :=
@@ -355,8 +364,8 @@ example : (load ⟨some 10, none, true⟩ 440 (some (Wire.ofPayload ⟨400, true
 
 /-- a pristine session exists; a view that only reads, before the reissue time, leaves it clean, after it marks it -/
 example : (freshSess 400).pristine := freshSess_pristine 400
-example : (runOps ⟨none, some 2, true⟩ 400 (freshSess 400) [(0, .get "a"), (8, .len)]).2.1.dirty = false ∧
-    (runOps ⟨none, some 2, true⟩ 400 (freshSess 400) [(0, .get "a"), (12, .len)]).2.1.dirty = true := by decide
+example : (runOps ⟨none, some 2, true⟩ 400 (freshSess 400) [(0, .get "a" none), (8, .len)]).2.1.dirty = false ∧
+    (runOps ⟨none, some 2, true⟩ 400 (freshSess 400) [(0, .get "a" (some (.int 0))), (12, .len)]).2.1.dirty = true := by decide
 
 /-- a two-request history through `idCodec`: flash + csrf token + a key survive into the next request -/
 example :
@@ -384,6 +393,14 @@ example : Unforgeable toyParts 7 [[1, 2, 3]] (toyParts.dumps 7 [1, 2, 3]) := by
   have : f = toyParts.dumps 7 [1, 2, 3] := by simpa [toyParts] using hf.symm
   subst this
   decide
+/-- popping a key whose stored value equals the default: dirty, key gone, and it stays gone in the next request -/
+example :
+    ((runHistory idCodec ⟨none, none, true⟩ ⟨400, []⟩
+      [⟨0, .latest, some [(0, .set "a" .null)], false⟩,
+       ⟨4, .latest, some [(0, .pop "a" (some .null))], false⟩,
+       ⟨4, .latest, some [(0, .keys)], false⟩]).2.map
+        (fun o => (o.start.map (fun s => s.data.map (·.1)), o.final.map (·.dirty)))) =
+      [(some [], some true), (some ["a"], some true), (some [], some false)] := by decide
 example : OpsNormal [(0, .set "a" (.obj [("x", .int 1), ("y", .null)])), (1, .flash (.arr [.int 1]) "q" false)] = true := by
   decide
 /-- and duplicate keys are what `JsonNormal` excludes -/
